@@ -1,5 +1,6 @@
 import S3V.Props.C13
 import S3V.Thm.PayloadTable
+import S3V.Thm.HttpDeMetadata
 /-!
 # C02 × C13 — the payload member of every operation (request body)
 
@@ -158,6 +159,65 @@ theorem C02_payload_stream_and_text_are_the_raw_body :
     exact ⟨h.symm, hv⟩
   · simp [hv] at h
 
+/-! ## the `x-amz-meta-*` family -/
+
+/-- **`parse_opt_metadata` reads back the metadata map** (generic; the helper model of `Model/HttpDe.lean`, which
+    `C02AllOps` leaves out): for every map `md` with pairwise distinct, non-empty keys whose values survive the header
+    text codec (`decStr (enc v) = some v`; the codec is the parameter, as in `C02_decode_encode`), sent the Smithy
+    `httpPrefixHeaders` way — one header `x-amz-meta-<key>: <value>` per pair — in front of any other headers
+    (any number, repeated or not, none of them named `x-amz-meta-…`), the helper yields exactly `md`, in order, and
+    `None` for the empty map. No bound on the number of pairs or on key / value sizes. -/
+theorem C02_metadata_roundtrip (decStr : Bytes → Option Bytes) (enc : Bytes → Bytes) (md : List (Bytes × Bytes))
+    (extra : List (HttpDe.Name × Bytes)) (q : Option (List (HttpDe.Name × Bytes)))
+    (hk : (md.map (·.1)).Nodup) (hne : ∀ kv ∈ md, kv.1 ≠ []) (hdec : ∀ kv ∈ md, decStr (enc kv.2) = some kv.2)
+    (hex : ∀ p ∈ extra, ¬ HttpDe.metaPrefix <+: p.1) :
+    HttpDe.parseOptMetadata decStr ⟨HttpDe.metaHeaders enc md ++ extra, q⟩ = .ok (if md = [] then none else some md) :=
+  HttpDe.parseOptMetadata_roundtrip decStr enc md extra q hk hne hdec hex
+
+def metaRowsOk (op : Op) : Bool :=
+  ((implInputs op).filter fun b => b.loc == .pfx).length ≤ 1 &&
+  (implInputs op).all fun b =>
+    (b.loc != .pfx || (b.wire == HttpDe.metaPrefix && b.required == false)) &&
+    (b.loc != .header || !HttpDe.metaPrefix.isPrefixOf b.wire)
+
+theorem metaRowsOk_all : ∀ op : Op, metaRowsOk op = true := by
+  intro op; cases op <;> decide +kernel
+
+/-- **… at every operation that has a prefix-headers input member** (re-decided on every run): an operation has at
+    most one member bound to a header-name prefix; the prefix is the `x-amz-meta-` the helper strips, the member is
+    optional (`parse_opt_metadata`); and no header-bound member of the same operation has a name with that prefix — so
+    the operation's own header members are among the `extra` headers the round trip allows. Hence, for every such
+    operation, every metadata map as above and any other headers not named `x-amz-meta-…` (those of the operation's
+    header members included), the member arrives as the map that was sent. -/
+theorem C02_metadata_roundtrip_every_operation (op : Op) (b : Binding) (hb : b ∈ implInputs op) (hp : b.loc = .pfx)
+    (decStr : Bytes → Option Bytes) (enc : Bytes → Bytes) (md : List (Bytes × Bytes))
+    (extra : List (HttpDe.Name × Bytes)) (q : Option (List (HttpDe.Name × Bytes)))
+    (hk : (md.map (·.1)).Nodup) (hne : ∀ kv ∈ md, kv.1 ≠ []) (hdec : ∀ kv ∈ md, decStr (enc kv.2) = some kv.2)
+    (hex : ∀ p ∈ extra, (∃ h ∈ implInputs op, h.loc = .header ∧ h.wire = p.1) ∨ ¬ HttpDe.metaPrefix <+: p.1) :
+    b.wire = HttpDe.metaPrefix ∧ b.required = false ∧
+    HttpDe.parseOptMetadata decStr ⟨HttpDe.metaHeaders enc md ++ extra, q⟩ = .ok (if md = [] then none else some md) := by
+  have hall := metaRowsOk_all op
+  simp only [metaRowsOk, Bool.and_eq_true, List.all_eq_true] at hall
+  have hrow := hall.2
+  have hbb := (hrow b hb).1
+  simp only [hp, bne_self_eq_false, Bool.false_or, Bool.and_eq_true, beq_iff_eq] at hbb
+  refine ⟨hbb.1, hbb.2, C02_metadata_roundtrip decStr enc md extra q hk hne hdec ?_⟩
+  intro p hpx
+  rcases hex p hpx with ⟨h, hh, hl, hw⟩ | hn
+  · have h2 := (hrow h hh).2
+    simp only [hl, bne_self_eq_false, Bool.false_or, Bool.not_eq_true'] at h2
+    rw [← hw]
+    intro hpre
+    rw [List.isPrefixOf_iff_prefix.mpr hpre] at h2
+    exact absurd h2 (by decide)
+  · exact hn
+
+/-- the operations with a prefix-headers input member (pinned tree) -/
+theorem C02_metadata_operations :
+    Op.all.filter (fun op => (implInputs op).any fun b => b.loc == .pfx)
+      = [.CopyObject, .CreateMultipartUpload, .PutObject, .WriteGetObjectResponse] := by
+  decide +kernel
+
 /-! ## non-vacuity -/
 
 /-- `PutBucketTagging` takes its body as `Tagging` (required), `PutObjectAcl` as `AccessControlPolicy` (optional),
@@ -184,6 +244,17 @@ example (X : Ext) : ∃ root sd ss, smithyRootOf (smithyInBody .PutBucketTagging
     <Key> &lt;a&gt;&amp;&apos;&quot; é </Key><Value>b</Value></Tag><Tag><Value></Value></Tag></TagSet></Tagging>` -/
 example : (setXmlBody true (.named t_Tagging none) taggingSch taggingVal).length = 169 := by decide +kernel
 
+/-- `C02_metadata_roundtrip` fires: `color=blue`, `shape=round thing` next to `host` and a repeated `x-amz-tagging`,
+    identity codec -/
+example : HttpDe.parseOptMetadata some
+    ⟨HttpDe.metaHeaders id [([99, 111, 108, 111, 114], [98, 108, 117, 101]),
+        ([115, 104, 97, 112, 101], [114, 111, 117, 110, 100, 32, 116, 104, 105, 110, 103])] ++
+      [([104, 111, 115, 116], [120]), ([120, 45, 97, 109, 122, 45, 116, 97, 103, 103, 105, 110, 103], [97]),
+       ([120, 45, 97, 109, 122, 45, 116, 97, 103, 103, 105, 110, 103], [98])], none⟩
+    = .ok (some [([99, 111, 108, 111, 114], [98, 108, 117, 101]),
+        ([115, 104, 97, 112, 101], [114, 111, 117, 110, 100, 32, 116, 104, 105, 110, 103])]) := by
+  apply C02_metadata_roundtrip some id _ _ none <;> decide
+
 end S3V.C02
 
 #print axioms S3V.C02.C02_payload_binding_matches_smithy
@@ -194,3 +265,6 @@ end S3V.C02
 #print axioms S3V.C02.C02_payload_every_operation_classified
 #print axioms S3V.C02.C02_payload_class_sizes
 #print axioms S3V.C02.C02_payload_stream_and_text_are_the_raw_body
+#print axioms S3V.C02.C02_metadata_roundtrip
+#print axioms S3V.C02.C02_metadata_roundtrip_every_operation
+#print axioms S3V.C02.C02_metadata_operations
